@@ -16,7 +16,3 @@ type verifCtxPool = sync.Pool
 type verifRWMutex = sync.RWMutex
 
 func verifOrder(_ string, items []string) []string { return items }
-
-func verifActionBatches(m map[string][]string) []map[string][]string {
-	return []map[string][]string{m}
-}
